@@ -2,20 +2,20 @@ from props import KERNEL, HARNESS, TRANSLATOR, CORR
 
 CONFIG = {
     "props_file": "props/C19.v",
-    "coq_targets": ["props/C19.vo", "model/BclFmtCorr.vo"],
+    "coq_targets": ["props/C19.vo", "model/BclFmtCorr.vo", "proofs/BclFmtGenProofs.vo", "proofs/BclPanicSitesProofs.vo", "proofs/BclFmtGenAllProofs.vo", "proofs/BclFmtGenAll2Proofs.vo"],
     "runner": "run_bcl",
     "gens": ["gen_bcl"],
     "level": "proof",
     "trusted_base": [
         KERNEL,
-        TRANSLATOR + " (TokensGen.v, UnicodeGen.v as for C11: token enumeration, operators, switch arms, panic( sites incl. fmt.go diffFile, unicode tables)",
+        TRANSLATOR + " (TokensGen.v, UnicodeGen.v as for C11: token enumeration, operators, switch arms, panic( sites incl. fmt.go diffFile, unicode tables; BclFmtGen.v: the conditions of FmtDiffs (merge <, extend >, first idx == 0, leading > 0, gap > and != newline, suppression !=), its FmtDiff literals, rangeLines' slice expression, singleLineTokens / multiLineToken line ranges as lib/GoExpr terms, evaluated against merge_diffs / diffs_loop / range_lines / single_line / multi_line on probe grids in proofs/BclFmtGenProofs.v and for ALL inputs in proofs/BclFmtGenAllProofs.v (fmt_diffs_of_all: FmtDiffs' two loops and rangeLines run on the table's expressions = the model's fmt_diffs_of); BclIndexGen.v as for C11)",
         CORR, HARNESS,
-        "modelled, not verified: strings.Split/Join, the Go slice expression lines[from:to] (bounds as in the language spec, cap = len for the result of strings.Split), string comparison, []rune conversion and UTF-8 encoding of the formatter's text; the application of TextEdits by an LSP client is modelled as replacement of whole lines (character 0 ranges), genlsp/format.go is modelled (lsp_format: TextEdit{(uint32(From),0),(uint32(To),0),NewText}) and compared in Coq on every case; the editor is modelled as applying character-0 edits by offset to the original text, a position past the last line being the end of the document (lsp_apply)",
+        "modelled, not verified: strings.Split/Join, the Go slice expression lines[from:to] (bounds as in the language spec, cap = len for the result of strings.Split), string comparison, []rune conversion and UTF-8 encoding of the formatter's text; the application of TextEdits by an LSP client is modelled as replacement of whole lines (character 0 ranges), genlsp/format.go is modelled (lsp_format: TextEdit{(uint32(From),0),(uint32(To),0),NewText}) and compared in Coq on every case; the editor is modelled twice: lsp_apply (character-0 edits by line offsets, a position past the last line being the end of the document) and the general protocol client of model/BclLsp.v (clamp_pos: the LSP 3.17 rule for positions beyond the document / the line; pos_offset: byte offset of any (line, UTF-16 character); client_apply); the server does no clamping of its own (genlsp/format.go), real clients are not in the loop",
         "add-only hooks: internal/bcl/internal/parser/verif_export.go, internal/bcl/genlsp/verif_export.go, internal/bcl/verifbcl, lib/verifshim/bcl (build tag verif)",
     ],
     "assumptions": [
         "model/BclFmt.v is the hand-written model of fmt.go (Fmt, FmtDiffs, collectFmtFragments, fmter, tokenSource) and description.go as they are after the fix: commits listed in KNOWN_FINDINGS.txt, on top of the C11 models of lexer and walker; tied to the code by this run's correspondence (FmtDiffs edit lists byte for byte, or its error / panic) and by the regenerated tables",
-        "two models of application, proved to agree (C19_offset_apply_is_line_apply): whole-line replacement (apply_edits, C19_full) and replacement by character offset of ranges (line,0)-(line,0) in the original text with positions past the last line clamped to the end of the document (lsp_apply, C19_lsp); C19_lsp assumes fewer than 2^32 lines (uint32 conversion); a blank line is one whose runes all satisfy unicode.IsSpace",
+        "two models of application, proved to agree (C19_offset_apply_is_line_apply): whole-line replacement (apply_edits, C19_full) and replacement by character offset of ranges (line,0)-(line,0) in the original text with positions past the last line clamped to the end of the document (lsp_apply, C19_lsp); C19_lsp assumes fewer than 2^32 lines (uint32 conversion); a blank line is one whose runes all satisfy unicode.IsSpace; the clamping an LSP client performs is no longer an assumption of the statement: C19_clamping_is_identity shows it changes no position of the edits produced except an end position on line = number of lines (the end of the document), and C19_client_apply_is_offset_apply that the general client computes exactly lsp_apply's text (C19_client)",
     ],
     "mult_search": 4,
     "refuted": [],
@@ -23,7 +23,7 @@ CONFIG = {
 }
 
 MANIFEST = {
-    "text": "Theorems over a Gallina model of FmtDiffs on top of the proved lexer/walker models, for all inputs: FmtDiffs never panics (lines[from:to] always in bounds) and never exhausts fuel; whenever the formatter accepts a file the edit list is computed and is ascending, non-overlapping with start<=end<=#lines (from the invariant that the walker's fragments come in non-decreasing line order inside the document, proved from the token-order theorem of C11, and a proof that merging fragments sharing a line yields strictly separated ranges); applying the edits (whole-line replacement) equals the formatter output up to trailing blank lines (from lexer coverage: every rune is inside a token or is skipped white space; walker coverage: every non-EOL token ends on or before the last line of some fragment, because a trailing comment and the closing EOL stay on the statement's last line; and []rune conversion commuting with line splitting). C19_full_statement is proved (C19_full).",
+    "text": "Theorems over a Gallina model of FmtDiffs on top of the proved lexer/walker models, for all inputs: FmtDiffs never panics (lines[from:to] always in bounds) and never exhausts fuel; whenever the formatter accepts a file the edit list is computed and is ascending, non-overlapping with start<=end<=#lines (from the invariant that the walker's fragments come in non-decreasing line order inside the document, proved from the token-order theorem of C11, and a proof that merging fragments sharing a line yields strictly separated ranges); applying the edits (whole-line replacement) equals the formatter output up to trailing blank lines (from lexer coverage: every rune is inside a token or is skipped white space; walker coverage: every non-EOL token ends on or before the last line of some fragment, because a trailing comment and the closing EOL stay on the statement's last line; and []rune conversion commuting with line splitting). C19_full_statement is proved (C19_full); the theorems are over byte strings (fmt_bytes, fmt_diffs on the Go string, lines = strings.Split on bytes). Also: every edit text is empty or newline-terminated and no edit starts beyond the last line (C19_edit_texts_wellformed); the same for genlsp's TextEdits under a protocol-conforming client with position clamping (C19_client); formatting an already formatted document is stable at the edit level (C19_format_twice_is_stable).",
     "note": "Full statement proved at both levels (C19_full over FmtDiffs' edits, C19_lsp over genlsp's TextEdits with an offset-based editor model) for the code after fixes e44da54 (hdr.End), 4de979f (merge fragments sharing a line) and ab17fab (white-space-only one-line gaps). Trusted: Coq kernel, translator, harness; Go slices/strings/[]rune modelled, the editor's application of TextEdits modelled (offset-based, clamping). All C19 theorems closed under the global context.",
     "technique": "Rocq/Coq proof (fragment-order invariant from the walker theorems; induction over merged fragments relating the edit loop, apply_edits and Fmt's line structure) + in-Coq differential correspondence of edit lists and of genlsp's TextEdits + direct oracle applying the edits",
 }
